@@ -40,10 +40,10 @@ structure EqvR (c : Cfg α S) : Prop where
   trans : ∀ p q r, Req c p q → Req c q r → Req c p r
 
 /-- expansion respects value equality of **reachable** productions, whatever rule sets and traces they inherited: two
-    reachable productions that compare equal have pairwise equal successor productions -/
+    reachable productions that compare equal and whose expansions both succeed have pairwise equal successor productions -/
 def ExpandRespects (c : Cfg α S) (init : List (E α S)) : Prop :=
-  ∀ r1 p1 t1 r2 p2 t2, ReachE c init p1 t1 r1 → ReachE c init p2 t2 r2 → Req c p1 p2 →
-    ∀ n ∈ succOf c r1 p1 t1, ∃ m ∈ succOf c r2 p2 t2, Req c n m
+  ∀ r1 p1 t1 r2 p2 t2 s1 s2, ReachE c init p1 t1 r1 → ReachE c init p2 t2 r2 → Req c p1 p2 →
+    c.expand r1 p1 t1 = .ok s1 → c.expand r2 p2 t2 = .ok s2 → ∀ n ∈ s1, ∃ m ∈ s2, Req c n.1 m.1
 
 theorem mem_ins_self (lt : S → S → Bool) (x : E α S) : ∀ l : List (E α S), x ∈ ins lt x l := by
   intro l; induction l with
@@ -303,6 +303,33 @@ theorem visits_reach (c : Cfg α S) (init : List (E α S)) : ∀ (f : Nat) (stac
           · exact hrs
           · exact ih _ _ V' hnext hv q hq
 
+/-- everything the loop pops was expanded without an exception -/
+theorem visits_expand_ok (c : Cfg α S) : ∀ (f : Nat) (stack : List (E α S)) (seen : List (List α × S)) (V : List (E α S)),
+    visits c f stack seen = some V → ∀ q ∈ V, ∃ s, c.expand q.rules q.prod q.trace = .ok s := by
+  intro f
+  induction f with
+  | zero => intro stack seen V h; simp [visits] at h
+  | succ f ih =>
+    intro stack seen V h
+    simp only [visits] at h
+    cases hs : stack.reverse with
+    | nil => simp only [hs] at h; simp at h; subst h; intro q hq; simp at hq
+    | cons s restRev =>
+      simp only [hs] at h
+      cases hex : c.expand s.rules s.prod s.trace with
+      | error e => simp [hex] at h
+      | ok succs =>
+        simp only [hex] at h
+        cases hv : visits c f (nextStack c restRev.reverse (pushNew c s.rules succs seen).1) (pushNew c s.rules succs seen).2 with
+        | none => simp [hv] at h
+        | some V' =>
+          simp only [hv, Option.map_some, Option.some.injEq] at h
+          subst h
+          intro q hq
+          rcases List.mem_cons.mp hq with rfl | hq
+          · exact ⟨succs, hex⟩
+          · exact ih _ _ V' hv q hq
+
 /-- **completeness**: if the loop terminates cleanly, every production reachable from the initial stack is value-equal to one
     that was popped and expanded — for every scorer -/
 theorem run_complete (c : Cfg α S) (he : EqvR c) (f : Nat) (init V : List (E α S)) (hx : ExpandRespects c init)
@@ -315,10 +342,11 @@ theorem run_complete (c : Cfg α S) (he : EqvR c) (f : Nat) (init V : List (E α
   | init hm => exact ⟨_, v1 _ hm, he.refl _⟩
   | @step p t rules succs p' t' n hreach hexp hmem ih =>
     obtain ⟨q, hq, hR⟩ := ih
-    have hn : p' ∈ succOf c rules p t := by
-      simp only [succOf, hexp, List.mem_map]; exact ⟨_, hmem, rfl⟩
-    obtain ⟨m, hm, hR2⟩ := hx rules p t q.rules q.prod q.trace hreach (vr q hq) hR p' hn
-    obtain ⟨q', hq', hR3⟩ := v2 q (Or.inr hq) m hm
+    obtain ⟨sq, hsq⟩ := visits_expand_ok c f init [] V h q hq
+    obtain ⟨m0, hm0, hR2⟩ := hx rules p t q.rules q.prod q.trace succs sq hreach (vr q hq) hR hexp hsq (p', t', n) hmem
+    have hm : m0.1 ∈ succOf c q.rules q.prod q.trace := by
+      simp only [succOf, hsq, List.mem_map]; exact ⟨m0, hm0, rfl⟩
+    obtain ⟨q', hq', hR3⟩ := v2 q (Or.inr hq) m0.1 hm
     rcases hq' with hq' | hq'
     · simp at hq'
     · exact ⟨q', hq', he.trans _ _ _ hR2 hR3⟩
@@ -546,18 +574,19 @@ theorem EqvK.toR {c : Cfg α S} (hk : EqvK c) : EqvR c :=
     scorer.  `ExpandRespects` is the one hypothesis about the rule base that is not proved here (see `Props/C15`). -/
 theorem complete_stream (c : Cfg α S) (hd : c.depth = 0) (hk : EqvK c) (f : Nat) (init : List (E α S)) (hER : ExpandRespects c init)
     (outs : List (α × List String × S)) (h : run c f none init [] [] = (outs, none)) :
-    ∀ p t rules, ReachE c init p t rules → succOf c rules p t = [] → ∀ x ∈ p, c.isVal x = true → ∃ o ∈ outs, c.keyEq x o.1 = true := by
+    ∀ p t rules, ReachE c init p t rules → c.expand rules p t = .ok [] → ∀ x ∈ p, c.isVal x = true → ∃ o ∈ outs, c.keyEq x o.1 = true := by
   intro p t rules hr hnil x hx hxv
   obtain ⟨V, hV, hE⟩ := run_visits c hd f init [] [] outs h
   obtain ⟨q, hq, hR⟩ := run_complete c hk.toR f init V hER hV p t rules hr
   have hqr := visits_reach c init f init [] V (fun e he => ReachE.init he) hV q hq
   have hR' : Req c q.prod p := listEqBy_symm _ hk.symm _ _ hR
+  obtain ⟨sq, hsq⟩ := visits_expand_ok c f init [] V hV q hq
   have hqnil : succOf c q.rules q.prod q.trace = [] := by
-    cases hs : succOf c q.rules q.prod q.trace with
-    | nil => rfl
+    cases sq with
+    | nil => simp [succOf, hsq]
     | cons n ns =>
-      obtain ⟨m, hm, _⟩ := hER q.rules q.prod q.trace rules p t hqr hr hR' n (by rw [hs]; exact List.mem_cons_self)
-      rw [hnil] at hm; simp at hm
+      obtain ⟨m, hm, _⟩ := hER q.rules q.prod q.trace rules p t (n :: ns) [] hqr hr hR' hsq hnil n List.mem_cons_self
+      simp at hm
   obtain ⟨y, hy, hxy⟩ := listEqBy_mem c.keyEq p q.prod hR x hx
   have hyv : c.isVal y = true := by rw [← hk.val x y hxy]; exact hxv
   rcases hE q hq hqnil y hy hyv with ⟨o, ho, e, _⟩ | ⟨o, ho, e⟩ | ⟨k, hk', _⟩
